@@ -132,7 +132,8 @@ class PathInfo:
         """
         json_dict = dict()
         json_dict['type'] = str(self.type)
-        json_dict['payload'] = self.payload if self.type == PathRepresentationType.Graph else self.payload.to_dict()
+        json_dict['payload'] = self.payload if self.type == PathRepresentationType.Graph or self.payload is None \
+            else self.payload.to_dict()
         return json.dumps(json_dict)
 
     @classmethod
@@ -151,7 +152,8 @@ class PathInfo:
 
         ptype = PathInfo.type_from_str(ptype_str)
         ret = cls(ptype)
-        ret.payload = d['payload'] if ptype == PathRepresentationType.Graph else Path.from_dict(d['payload'])
+        ret.payload = d['payload'] if ptype == PathRepresentationType.Graph or d['payload'] is None \
+            else Path.from_dict(d['payload'])
         return ret
 
     def __str__(self):
@@ -187,7 +189,8 @@ class ERO(PathInfo):
         json_dict = dict()
         json_dict['type'] = str(self.type)
         json_dict['strict'] = str(self.strict)
-        json_dict['payload'] = self.payload if self.type == PathRepresentationType.Graph else self.payload.to_dict()
+        json_dict['payload'] = self.payload if self.type == PathRepresentationType.Graph or self.payload is None \
+            else self.payload.to_dict()
         return json.dumps(json_dict)
 
     @classmethod
@@ -206,7 +209,8 @@ class ERO(PathInfo):
 
         ptype = PathInfo.type_from_str(ptype_str)
         ret = cls(ptype)
-        ret.payload = d['payload'] if ptype == PathRepresentationType.Graph else Path.from_dict(d['payload'])
+        ret.payload = d['payload'] if ptype == PathRepresentationType.Graph or d['payload'] is None \
+            else Path.from_dict(d['payload'])
         ret.strict = True if d.get('strict', None) in {'True', 'true'} else False
         return ret
 
